@@ -113,6 +113,14 @@ def run_frames(ctx):
             if o.startswith("X:") and o not in ALLOWED:
                 ctx.violate("only-documented-exceptions", "frame-phase-" + o[2:], inp, "PROTO/PAYLOAD/CLOSED/TIMEOUT or transport error", o, size=len(s))
                 break
+        # progress also means: a rejected frame is consumed. The same protocol error again from a call that touched the
+        # transport not at all is the old frame judged twice (its bytes are gone, the next call must read on)
+        sts = rx.states(impl)
+        for a, b in zip(sts, sts[1:]):
+            if a[0] == "X:PROTO" and b[0] == "X:PROTO" and a[2] == b[2]:
+                ctx.violate("progress", "protocol-error-repeated-without-reading", inp,
+                            "after a rejected frame the next call reads the bytes that follow", impl[:200], size=len(s))
+                break
         mx = max(sock.recv_sizes) if sock.recv_sizes else 0
         if mx > 16384:
             ctx.violate("request-sizes-bounded", "recv-size-from-declared-length", inp, "<= 16384", str(mx), size=len(s))
